@@ -164,10 +164,10 @@ def expNested (paths : Str → Path) (tbl : List Trig) (x : Path × Q) : List Tr
   if shown x.2 then
     ((triggered tbl x.2.name false).map fun e =>
       ({ ctl := x.1, set := { tag := "setvalue".toList, ref := paths e.target, event := evChanged,
-                              value := if e.value.isEmpty then none else some (sub x.1 e.value) } } : TrigFact)) ++
+                              value := if e.value.isEmpty then none else some (sub (paths e.target) e.value) } } : TrigFact)) ++
     ((triggered tbl x.2.name true).map fun e =>
       ({ ctl := x.1, set := { tag := "odk:setgeopoint".toList, ref := paths e.target, event := evChanged,
-                              value := if e.value.isEmpty then none else some (sub x.1 e.value) } } : TrigFact))
+                              value := if e.value.isEmpty then none else some (sub (paths e.target) e.value) } } : TrigFact))
   else []
 
 theorem bodyTrigsL_append (a b : List Body) : bodyTrigsL (a ++ b) = bodyTrigsL a ++ bodyTrigsL b := by
